@@ -207,4 +207,4 @@ def run(ctx):
     from skchange.change_detectors import SeededBinarySegmentation as _SBS
     from skchange.costs import L2Cost as _L2
     variants_stream(ctx, "SeededBinarySegmentation(CUSUM)", lambda: _SBS(min_segment_length=2), ctx.n(3, 20))
-    variants_stream(ctx, "SeededBinarySegmentation(L2Cost)", lambda: _SBS(change_score=_L2(), min_segment_length=3, max_interval_length=40), ctx.n(2, 12))
+    variants_stream(ctx, "SeededBinarySegmentation(L2Cost)", lambda: _SBS(change_score=_L2(), min_segment_length=3, max_interval_length=40), ctx.n(2, 12), nested=("change_score__param", 0.0))
